@@ -23,6 +23,7 @@ func init() {
 			{"R14.2", "validate everything before queueing anything", ruleValidateBeforeQueue},
 			{"R14.3", "coercion is total over the numeric types", ruleCoercionTotal},
 			{"R14.4", "the schema check gets (bucket shapes, data shapes) in that order", ruleSchemaCheckArgumentRoles},
+			{"R14.5", "numeric conversion helpers read the value with its own kind's accessor", ruleConversionHelpersIndependent},
 		},
 	})
 	register(&Property{
